@@ -1697,7 +1697,9 @@ class DocutilsRenderer(RendererProtocol):
         MockRSTParser().parse(pseudosource, newdoc)
         for node in newdoc:
             if node["names"]:
-                self.document.note_explicit_target(node, node)
+                # a duplicate-name message is added to the current node
+                # (not to `node`, which may be a target, which cannot have children)
+                self.document.note_explicit_target(node, self.current_node)
         self.current_node.extend(newdoc.children)
 
     def render_directive(
